@@ -302,7 +302,17 @@ def run_impl_case(c, timeout=20.0):
     except CaseTimeout:
         return {"status": "TIMEOUT"}
     except RecursionError as e:
-        return {"status": "CRASH", "err": "RecursionError", "site": "host-stack", "msg": ""}
+        # where the host stack ran out: inside expression evaluation (a long operator chain) or
+        # in the stack of nested blocks/imports
+        site = "host-stack"
+        try:
+            tb = traceback.extract_tb(e.__traceback__)
+            inner = [fr for fr in tb if "/ducklingscript/" in fr.filename][-8:]
+            if inner and all("/tokenization/" in fr.filename for fr in inner):
+                site = "expr-recursion"
+        except Exception:
+            pass
+        return {"status": "CRASH", "err": "RecursionError", "site": site, "msg": ""}
     except Exception as e:
         try:
             return error_rec(e)
